@@ -429,16 +429,16 @@ def diffusion_stencil_3d(epsilony=1.0, epsilonz=1.0, theta=0.0, phi=0.0,
 
         L = np.array([-1, -1, 1, 1])
         M = np.array([-1, 1, -1, 1])
-        # dxy
+        # -dxy (central difference (u[+,+] - u[+,-] - u[-,+] + u[-,-]) / 4, negated like the second derivatives above)
         stencil[i + L, j + M, k] \
-            += 0.25 * np.array([1, -1, -1, 1]) * (D[1, 0] + D[0, 1])
+            += 0.25 * np.array([-1, 1, 1, -1]) * (D[1, 0] + D[0, 1])
 
-        # dxz
+        # -dxz
         stencil[i + L, j, k + M] \
-            += 0.25 * np.array([1, -1, -1, 1]) * (D[2, 0] + D[0, 2])
+            += 0.25 * np.array([-1, 1, 1, -1]) * (D[2, 0] + D[0, 2])
 
-        # dyz
+        # -dyz
         stencil[i, j + L, k + M] \
-            += 0.25 * np.array([1, -1, -1, 1]) * (D[2, 1] + D[1, 2])
+            += 0.25 * np.array([-1, 1, 1, -1]) * (D[2, 1] + D[1, 2])
 
     return stencil
